@@ -138,3 +138,24 @@ package selftest
 //@   requires x >= 0 && x < 1000
 //@   dyncall double, triple
 //@   ensures result >= 2 * x
+
+//@ func GoodPrivateLocal
+//@   requires x < 1000 && x > -1000
+//@   ensures result == x + 7
+
+//@ func BadEscapedLocal
+//@   ensures result == x
+
+//@ func makePairNoContract
+//@   noinline
+
+//@ func clobber
+//@   noinline
+
+//@ func GoodFreshWrites
+//@   requires !isnil(p)
+//@   ensures result == 5
+
+//@ func BadSharedWrite
+//@   requires !isnil(p) && !isnil(q)
+//@   ensures result == 5
